@@ -21,6 +21,8 @@ QUICK = [  # kind, profile, cases
     ("gen-packfile", {"nfiles": 3, "ndirs": 1, "xattrs": True, "hardlinks": True, "bs": 4096, "jobs": 2}, 2),
     # tables that fill whole 8 KiB metadata blocks (> 1024 inodes with -e): a failing write of a *full* table block, not only of the tail
     ("gen-packfile", {"nfiles": 2, "ndirs": 1, "bigdir": 1100, "bigdir_dense": True, "exportable": True, "notail": False, "bs": 4096, "jobs": 1}, 1),
+    # duplicate tail ends far apart: the fragment block with the first copy is on disk by then and is read back (pread on the *output*)
+    ("gen-packfile", {"nfiles": 1, "ndirs": 1, "bs": 4096, "duptails": 30, "comp": "gzip", "jobs": 1, "specials": False}, 1),
     ("gen-packdir", {"nfiles": 4, "ndirs": 2, "xattrs": True, "hardlinks": True, "bs": 4096}, 3),
     ("tar2sqfs", {"nfiles": 4, "ndirs": 1, "bs": 4096}, 3),
     ("tar2sqfs", {"nfiles": 3, "ndirs": 1, "wrap": "gzip", "bs": 4096}, 1),
